@@ -522,6 +522,7 @@ int cif_loop_get_packets(
     cif_container_tp *container = loop->container;
     cif_tp *cif;
     cif_pktitr_tp *temp_it;
+    struct set_element_s *pending_element = NULL;  /* a name-set element not (yet) owned by the name set */
 
     if (container == NULL) {
         return CIF_INVALID_HANDLE;
@@ -555,7 +556,9 @@ int cif_loop_get_packets(
                 struct set_element_s *element = (struct set_element_s *) malloc(sizeof(struct set_element_s));
 
                 if (element) {
+                    pending_element = element;
                     HASH_ADD_KEYPTR(hh, temp_it->name_set, *name, U_BYTES(*name), element);
+                    pending_element = NULL;
                 } else {
                     FAIL(soft, CIF_MEMORY_ERROR);
                 }
@@ -587,6 +590,7 @@ int cif_loop_get_packets(
 
         FAILURE_HANDLER(soft):
         /* clean up everything */
+        free(pending_element);
         cif_pktitr_free(temp_it);
     }
 
